@@ -12,7 +12,9 @@ Open Scope Q_scope.
 Definition c_disc (p0 p1 p2 p3 : Q) : Q :=
   6 * (p2 - 2 * p1 + p0) * (6 * (p2 - 2 * p1 + p0))
   - 4 * (3 * (p3 + 3 * (p1 - p2) - p0)) * (3 * (p1 - p0)).
-Definition sqrt_ok_at (sq : Q -> Q) (d : Q) : Prop := 0 <= d -> sq d * sq d == d.
+(* 0 <= sq d (true of Rust's sqrt) is needed by the numerically stable root formula, for q <> 0:
+   see cubic_extrema_needs_nonneg_sqrt in Proofs/C11_Cubic.v *)
+Definition sqrt_ok_at (sq : Q -> Q) (d : Q) : Prop := 0 <= d -> 0 <= sq d /\ sq d * sq d == d.
 
 (* a chain of parameter ranges from s to e: each starts where the previous ended, strictly increasing *)
 Fixpoint chain (s : Q) (l : list (Q * Q)) (e : Q) : Prop :=
@@ -114,7 +116,9 @@ Proof. exact cubic_fast_contains. Qed.
 Example C11_sqrt_hypothesis_met :
   sqrt_ok_at (fun _ => 72) (c_disc 0 9 (-(6)) 3) /\
   Forall2 Qeq (c_local_extrema (fun _ => 72) 0 9 (-(6)) 3) [1 # 4; 3 # 4].
-Proof. split; [intros _; vm_compute; reflexivity | vm_compute; repeat constructor]. Qed.
+Proof.
+  split; [intros _; split; [discriminate | vm_compute; reflexivity] | vm_compute; repeat constructor].
+Qed.
 
 Print Assumptions C11_quad_extremum_sound.
 Print Assumptions C11_quad_extremum_complete.
